@@ -412,7 +412,7 @@ func (r *Reconciler) reconcileAbort(ctx context.Context, proposal *configapi.Pro
 			}
 		} else if config.Status.Applied.Index == proposal.Status.PrevIndex &&
 			config.Status.Committed.Index >= proposal.TransactionIndex {
-			config.Status.Committed.Index = proposal.TransactionIndex
+			config.Status.Applied.Index = proposal.TransactionIndex
 			if err := r.configurations.UpdateStatus(ctx, config); err != nil {
 				log.Warnf("Failed reconciling Transaction %d Proposal to target '%s'", proposal.TransactionIndex, proposal.TargetID, err)
 				return controller.Result{}, err
